@@ -24,6 +24,7 @@ def run(tier, seed):
         PID, tier, seed, mc, rp,
         level_text='TLC exhaustive + replay of every behaviour of the dumped state graphs into the real Process',
         assumptions=C.ASSUMPTIONS,
+        suite_traces=lambda e: e[0] in ('enter', 'ts', 'te') or (e[0] in ('cs', 'ce') and e[1] != 'kill'),
         rule='every interleaving of <=K requests from {kill,pause,play,resume,fail,cancel-future,call_soon ok/raising} with every program '
              'of the family, requests also after termination; plus one re-entrant request from a step body or listener; a behaviour is '
              'one maximal path of the TLC state graph')
